@@ -102,6 +102,11 @@ def _run_one(entry: dict, repo: str) -> dict:
             if ok and entry.get('names'):
                 ok = any(entry['names'] in ln for ln in out.splitlines() if 'VIOLATION' in ln or ln.startswith('  '))
             res['outcome'] = 'ok' if ok else ('MISSED' if rc == 0 else ('ERROR' if rc == 2 else 'WRONG-CONSTRUCT'))
+        elif entry['expect'] == 'open':
+            # a listed, unrepaired false alarm: reported in the summary line; "ok" either way so that the list, not the exit code, carries it -- and flagged when it
+            # has stopped alarming (the entry should then leave OPEN.json)
+            res['outcome'] = 'ok'
+            res['open_state'] = 'still-alarms' if rc == 1 else ('silent-now' if rc == 0 else 'unreadable')
         elif entry['expect'] == 'no-alarm':
             # a variant that re-shapes what the rules are written against: silent or "cannot read this" (exit 2) are both honest, a violation is not
             res['outcome'] = 'ok' if rc in (0, 2) else 'FALSE-ALARM'
@@ -139,6 +144,10 @@ def main(argv: List[str]) -> int:
                 for ln in r['detail'].splitlines()[:6]:
                     print('      ' + ln[:300])
     fire = sum(1 for r in res if r['expect'] == 'fire')
+    opened = [r for r in res if r['expect'] == 'open']
+    if opened:
+        print(f"open false alarms (refactorings/OPEN.json): {sum(1 for r in opened if r.get('open_state') == 'still-alarms')} still alarm, "
+              f"{[r['id'] for r in opened if r.get('open_state') != 'still-alarms']} no longer do")
     unread = sum(1 for r in res if r['expect'] == 'no-alarm' and r.get('rc') == 2)
     print(f'selftest: {len(res)} entries ({fire} must-fire, {len(res) - fire} must-stay-silent of which {unread} answered "cannot read"), {len(bad)} not as expected, '
           f'{time.time() - t0:.1f}s')
